@@ -52,6 +52,38 @@ def gen(tier, seed):
     return cases
 
 
+def gen_large(tier, seed):
+    """Bodies across orders of magnitude, around every size the code treats specially (the read
+    buffer's 4096-byte first read, 64 KiB, frame_max 131072, the 1 MiB pre-allocation cap)."""
+    rng = Rng(seed + 3300)
+    sizes = [4095, 4096, 4097, 65535, 65536, 131064, 131065, 2 ** 20 - 1, 2 ** 20, 2 ** 20 + 1]
+    if tier != "quick":
+        sizes += [2 ** 20 + 131064, 2 ** 21 + 3, 3 * 2 ** 20]
+    cases = []
+    for i, sz in enumerate(sizes):
+        for kind in (("deliver", "get", "return") if (tier != "quick" or sz in (2 ** 20 + 1, 4097)) else ("deliver",)):
+            g = mg.Gen(rng, chmax=2, bound=4, via_stream=rng.choice([0.0, 1.0]) if sz < 2 ** 19 else 0.0)
+            h = g.open_channel(1); g.bind_opened(h, 1)
+            cl = g.consume(h, "t1")
+            if kind == "return":
+                lst = g.new_listener()
+                g.op("send %s setret %s" % (h, lst)); g.op("ev 1")
+            data = bytes((j * 7 + i) % 251 for j in range(sz))
+            chunk = rng.choice([131064, 131064, 65536, 100000])
+            parts = [data[a:a + chunk] for a in range(0, sz, chunk)]
+            first = {"deliver": mg.deliver(1, "t1", 1, False, "", "k"), "return": mg.ret(1, 312, "x", "e", "k"), "get": mg.get_ok(1, 1, False, "e", "k", 0)}[kind]
+            if kind == "get":
+                g.op("send %s send %s" % (h, mg.hx(mg.amqp.client_only_samples(1)["basic.get"]))); g.op("ev 1")
+            g.feed([first, mg.header(1, sz)] + [mg.body(1, p) for p in parts] + [mg.deliver(1, "t1", 2, False, "", "k"), mg.header(1, 1), mg.body(1, b"z")])
+            if kind == "get":
+                g.op("recv %s -" % h)
+            g.finish()
+            cases.append(g.case("L%d_%s" % (sz, kind)))
+    return cases
+
+
 def suites(tier, seed):
-    return [Suite("sessions", "machine", lambda: gen(tier, seed), monitor=monitor, nontrivial=nontrivial, canon=mg.canon_nondet, candidate_ok=mg.candidate_ok,
+    return [Suite("large-bodies", "machine", lambda: gen_large(tier, seed), monitor=monitor, nontrivial=lambda c, il: True, canon=mg.canon_nondet, candidate_ok=mg.candidate_ok, shards=4,
+                  rule="one content (delivery / get answer / return) of 4095, 4096, 4097, 65535, 65536, 131064, 131065, 2^20-1, 2^20, 2^20+1 bytes (thorough: also 2^20+131064, 2^21+3, 3*2^20) cut into frames of 64-128 KiB, followed by a second small delivery: delivered once, intact, and the next message after it too"),
+            Suite("sessions", "machine", lambda: gen(tier, seed), monitor=monitor, nontrivial=nontrivial, canon=mg.canon_nondet, candidate_ok=mg.candidate_ok,
                   rule="random sessions: 2-6 channels x consumers; deliveries, gets and returns with bodies 0..300 B cut into body frames by every partition style (one / two / single bytes / random / with empty frames), other channels' frames and heartbeats interleaved inside a content, frames fed directly or through the stream with random read cuts and would-block points; queues drained at the end")]
